@@ -61,7 +61,8 @@ class SyncKill:
 
     def __init__(self, chk, scn, cache, autosave_at=0, model=None, full_c01=False):
         self.chk, self.scn, self.cache, self.autosave_at, self.model, self.full_c01 = chk, scn, cache, autosave_at, model, full_c01
-        self.opts = ['--test-io-cache', str(cache)] + (['--test-force-autosave-at', str(autosave_at)] if autosave_at else [])
+        self.force = ['--force-empty'] if scn.name == 'wipe' else []       # every file of a disk removed: sync refuses without -E
+        self.opts = ['--test-io-cache', str(cache)] + (['--test-force-autosave-at', str(autosave_at)] if autosave_at else []) + self.force
         self.adds_only = scn.name in ('adds', 'adds3', 'fresh')
         self.synced_before = [(op[1], op[2]) for ph in scn.pre for op in ph if op[0] == 'write'] if self.adds_only else []
         self.stats = {'kills': 0, 'content_loads': 0, 'kill_inv_stripes': 0, 'resumed': 0, 'c01_recoveries': 0, 'adds_recoveries': 0,
@@ -103,6 +104,16 @@ class SyncKill:
             if call in WRITE_CALLS:
                 pts.append((n, 'short'))
         return pts
+
+    def trunc_window(self, k, mode):
+        """is the kill between the (possible) shrinking of the parity and the last rename of the save that follows it?"""
+        shrink = [n for (n, call, path, rest) in self.calls if call == 'ftruncate' and path.endswith('.parity')]
+        ren = [n for (n, call, path, rest) in self.calls if call == 'rename' and 'snapraid.content' in path]
+        if not shrink or not ren:
+            return False
+        done = k if mode == 'after' else k - 1
+        first_save = ren[:max(1, self.scn.ncontent)]
+        return min(shrink) <= done < max(first_save)
 
     # ---------------------------------------------------------------------------------------------- one kill
     def kill_case(self, pt):
@@ -146,6 +157,10 @@ class SyncKill:
                 self.stats['kill_inv_stripes'] += n
                 for e in (errs + perr)[:2]:
                     what = 'sync killed at call %d (%s): content copy %d records a stripe as synced whose parity is not valid: %s' % (k, mode, i, e)
+                    if 'parity file too small' in e and self.trunc_window(k, mode):
+                        # the open finding: the parity is shrunk before the content that records the deletion is saved
+                        chk.violation('kill_inv_trunc', what, rep, finding_key=KEY_TRUNC)
+                        continue
                     if self.autosave_at:
                         # F-C07-autosave-writers-not-drained was repaired in /repo (6a618a2: io_stop before the autosave): plain violation
                         self.stats['autosave_race_hits'] += 1
@@ -167,7 +182,7 @@ class SyncKill:
                         else:
                             chk.violation('adds_only', 'sync (additions only) killed at call %d (%s): after losing %s, fix does not restore the previously synced %s' % (k, mode, dev, bad[:2]), rep)
             # 5. the next sync completes and re-establishes the guarantee
-            rs = a.run('sync')
+            rs = a.run('sync', *self.force)
             if rs.rc != 0:
                 chk.violation('resume', 'sync after a sync killed at call %d (%s) fails (rc %d): %s' % (k, mode, rs.rc, rs.err[-300:]), rep)
                 return
@@ -180,8 +195,12 @@ class SyncKill:
             d = data_equal(self.pre_snap, a.snapshot_data())
             if d:
                 chk.violation('data_modified', 'the resumed sync modified data files: %s' % d[:3], rep)
+            if self.force:
+                rck = a.run('check')
+                if rck.rc != 0:
+                    chk.violation('resume_check', 'after kill at call %d (%s) and a completed `sync -E`, `check` reports errors (rc %d): %s' % (k, mode, rck.rc, rck.summary()), rep)
             final = a.snapshot_data()
-            disks = a.disks if self.full_c01 else [a.disks[k % a.nd]]
+            disks = a.disks if (self.full_c01 or self.force) else [a.disks[k % a.nd]]
             for dname in disks:
                 b = clone(a)
                 try:
@@ -193,6 +212,50 @@ class SyncKill:
                     dd = data_equal(exp, got)
                     if rf.rc != 0 or dd:
                         chk.violation('c01', 'after kill at call %d (%s) and a completed sync, losing %s is not recovered by fix (rc %d): %s' % (k, mode, dname, rf.rc, dd[:3]), rep)
+                finally:
+                    drop(b)
+        finally:
+            drop(a)
+
+    def partial_case(self, n):
+        """`sync -B n` (a partial run: the content is saved after n stripes), then sync to completion: the same guarantees as after a
+        kill (independent parity check, `check`, recovery of every disk)"""
+        chk = self.chk
+        if len(chk.violations) > 8:
+            return
+        a = self.scn.build()
+        rep = dict(self.desc, partial='-B %d' % n)
+        try:
+            r = a.run('sync', '-B', str(n), *self.opts)
+            self.stats['kills'] += 1
+            for i, st in valid_contents(a):
+                perr, cnt = a.check_parity(st)
+                self.stats['kill_inv_stripes'] += cnt
+                for e in (a.check_map(st) + perr)[:2]:
+                    chk.violation('partial_inv', 'after `sync -B %d`: content copy %d records a stripe as synced whose parity is not valid: %s' % (n, i, e), rep)
+            if data_equal(self.pre_snap, a.snapshot_data()):
+                chk.violation('data_modified', '`sync -B %d` modified data files' % n, rep)
+            rs = a.run('sync', *self.force)
+            st = a.content()
+            left = all_synced(a, st)
+            perr, _ = a.check_parity(st)
+            rck = a.run('check')
+            if rs.rc != 0 or left or perr or rck.rc != 0:
+                chk.violation('partial_resume', '`sync -B %d` then `sync`: rc %d, unsynced %s, parity errors %s, check rc %d %s' % (n, rs.rc, left, perr[:2], rck.rc, rck.summary()), rep)
+                return
+            self.stats['resumed'] += 1
+            final = a.snapshot_data()
+            for dname in a.disks:
+                b = clone(a)
+                try:
+                    lose(b, ('d', dname))
+                    rf = b.run('fix', '-d', dname)
+                    self.stats['c01_recoveries'] += 1
+                    got = {kk: v for kk, v in b.snapshot_data().items() if kk[0] == dname}
+                    exp = {kk: v for kk, v in final.items() if kk[0] == dname}
+                    dd = data_equal(exp, got)
+                    if rf.rc != 0 or dd:
+                        chk.violation('partial_c01', '`sync -B %d`, `sync`, then losing %s: not recovered by fix (rc %d): %s' % (n, dname, rf.rc, dd[:3]), rep)
                 finally:
                     drop(b)
         finally:
@@ -226,7 +289,7 @@ class SyncKill:
         a = self.scn.build()
         try:
             len_before = [len(a.parity_bytes(l)) // a.bs for l in range(a.np)]
-            post_scan(a)
+            post_scan(a, extra=self.force)
             st1 = a.content()
             br = Bridge(a)
             br.learn_hashes(st1)
@@ -301,7 +364,8 @@ def signal_case(chk, scn, slow, cache, k, sig, model, stats):
         prog = os.path.join(a.root, 'progress')
         env = dict(os.environ)
         env.update({'LD_PRELOAD': slow, 'C07_SLOW_MS': '30', 'C07_SLOW_PROGRESS': prog, 'C07_SLOW_SUBSTR': 'par0_'})
-        args = [a.bin] + BASE_OPTS + ['-c', a.conf, '-l', os.path.join(a.root, 'sig.log'), 'sync', '--test-io-cache', str(cache)]
+        force = ['--force-empty'] if scn.name == 'wipe' else []
+        args = [a.bin] + BASE_OPTS + ['-c', a.conf, '-l', os.path.join(a.root, 'sig.log'), 'sync', '--test-io-cache', str(cache)] + force
         p = subprocess.Popen(args, stdout=subprocess.PIPE, stderr=subprocess.PIPE, env=env, cwd=a.root)
         t0 = time.time()
         while p.poll() is None and time.time() - t0 < 30:
@@ -362,10 +426,12 @@ def signal_case(chk, scn, slow, cache, k, sig, model, stats):
                     chk.violation('signal_adds', 'graceful stop (signal %d, stripe write %d): after losing %s fix does not restore the previously synced %s' % (sig, k, lost, bad[:3]), rep)
             finally:
                 drop(b)
-        rs = a.run('sync')
+        rs = a.run('sync', *force)
         st2 = a.content()
         left = all_synced(a, st2)
         perr, _ = a.check_parity(st2)
+        if force and rs.rc == 0 and a.run('check').rc != 0:
+            chk.violation('signal_check', 'graceful stop of `sync -E` (signal %d at stripe write %d), `sync -E` again, then `check` reports errors' % (sig, k), rep)
         if rs.rc != 0 or left or perr:
             chk.violation('signal_resume', 'sync after a graceful stop fails or is incomplete (rc %d, unsynced %s, parity %s)' % (rs.rc, left, perr[:2]), rep)
     finally:
@@ -475,6 +541,107 @@ class FixKill:
                 self.stats['same_result'] += 1
                 if dd_strict:
                     self.stats['mtime_only_diffs'] += 1
+        finally:
+            drop(a)
+
+
+class FixLeftovers:
+    """*.unrecoverable files left by an earlier fix (more damage than redundancy), then a SECOND fix that is stopped gracefully
+    before the end -- a partial run `fix -B n` / `fix -S s -B n`, or SIGINT/SIGTERM at a data write -- then an uninterrupted fix:
+    the final tree must equal the one of an uninterrupted second fix, and no user file (under its name or its .unrecoverable name)
+    may disappear at any moment."""
+
+    def __init__(self, chk, binary, shim, slow):
+        self.chk, self.binary, self.shim, self.slow = chk, binary, shim, slow
+        self.stats = {'partial_runs': 0, 'signals': 0, 'same_result': 0}
+        a = self.build()
+        self.before = self.listing(a)
+        if not any(k[1].endswith('.unrecoverable') for k in self.before):
+            raise RuntimeError('the first fix left no .unrecoverable file: %s' % sorted(self.before))
+        r = a.run('fix')
+        self.ref_rc = r.rc
+        self.ref = self.listing(a)
+        st = a.content()
+        self.blockmax = st['blockmax']
+        drop(a)
+
+    def build(self):
+        a = Array(self.binary, nd=2, np_=1, ncontent=2, shim=self.shim)
+        a.write('d1', 'F', det_bytes('fl/F', 8 * BS), mtime_ns=T0 + 11)
+        a.write('d1', 'K', det_bytes('fl/K', 2 * BS + 7), mtime_ns=T0 + 12)
+        a.write('d2', 'G', det_bytes('fl/G', 8 * BS), mtime_ns=T0 + 13)
+        if a.run('sync').rc != 0:
+            raise RuntimeError('fix leftovers: sync failed')
+        # block 2 of F damaged and G lost: stripe 2 has two failures for one parity
+        p = a.path('d1', 'F')
+        b = bytearray(open(p, 'rb').read())
+        b[2 * BS:3 * BS] = det_bytes('fl/damage', BS)
+        open(p, 'wb').write(bytes(b))
+        os.unlink(a.path('d2', 'G'))
+        a.run('fix')
+        return a
+
+    @staticmethod
+    def listing(a):
+        return {k: v[1] for k, v in a.snapshot_data().items() if v[0] == 'f'}
+
+    @staticmethod
+    def users(lst):
+        return {(d, n[:-len('.unrecoverable')] if n.endswith('.unrecoverable') else n) for (d, n) in lst}
+
+    def finish(self, a, what, rep):
+        chk = self.chk
+        mid = self.listing(a)
+        gone = self.users(self.before) - self.users(mid)
+        if gone:
+            chk.violation('fix_leftover_lost', '%s over .unrecoverable leftovers: the user files %s disappeared' % (what, sorted(gone)), rep)
+        r2 = a.run('fix')
+        got = self.listing(a)
+        diffs = [k for k in sorted(set(got) | set(self.ref)) if got.get(k) != self.ref.get(k)]
+        if diffs or r2.rc != self.ref_rc:
+            chk.violation('fix_leftover_resume', '%s over .unrecoverable leftovers, then fix again (rc %d): differs from an uninterrupted fix at %s' % (what, r2.rc, diffs[:4]), rep)
+        elif not gone:
+            self.stats['same_result'] += 1
+
+    def partial_case(self, sb):
+        s, n = sb
+        if len(self.chk.violations) > 8:
+            return
+        a = self.build()
+        try:
+            opts = (['-S', str(s)] if s else []) + ['-B', str(n)]
+            a.run('fix', *opts)
+            self.stats['partial_runs'] += 1
+            self.finish(a, '`fix %s`' % ' '.join(opts), {'fix_partial': opts})
+        finally:
+            drop(a)
+
+    def signal_case(self, ks):
+        k, sig = ks
+        if len(self.chk.violations) > 8:
+            return
+        a = self.build()
+        try:
+            prog = os.path.join(a.root, 'progress')
+            env = dict(os.environ)
+            env.update({'LD_PRELOAD': self.slow, 'C07_SLOW_MS': '30', 'C07_SLOW_PROGRESS': prog, 'C07_SLOW_SUBSTR': os.path.join(a.root, 'd')})
+            args = [a.bin] + BASE_OPTS + ['-c', a.conf, 'fix']
+            p = subprocess.Popen(args, stdout=subprocess.PIPE, stderr=subprocess.PIPE, env=env, cwd=a.root)
+            t0 = time.time()
+            while p.poll() is None and time.time() - t0 < 30:
+                if (open(prog).read().count('\n') if os.path.exists(prog) else 0) >= k:
+                    break
+                time.sleep(0.002)
+            if p.poll() is None:
+                p.send_signal(sig)
+            try:
+                out, err = p.communicate(timeout=60)
+            except subprocess.TimeoutExpired:
+                p.kill()
+                self.chk.violation('fix_signal_hang', 'fix does not exit after signal %d' % sig, {'k': k})
+                return
+            self.stats['signals'] += 1
+            self.finish(a, 'fix stopped by signal %d at its data write %d%s' % (sig, k, '' if b'Stopping' in err else ' (finished before)'), {'fix_signal': [k, int(sig)]})
         finally:
             drop(a)
 
@@ -669,13 +836,16 @@ def main(tier, replay=None):
     # ---- (b) abrupt kills
     if quick:
         confs = [('adds', 2, 1, 1, 1, 0), ('adds', 2, 2, 3, 1, 0), ('mixed', 3, 2, 3, 2, 0), ('adds3', 3, 1, 3, 1, 0),
+                 # every file of one disk removed (sync -E): kills after each content save, partial runs
+                 ('wipe', 2, 1, 3, 2, 0), ('wipe', 3, 2, 1, 1, 0),
                  # kill points inside the autosave sequence (io_stop, parity fsyncs, content save, restart), every io mode
                  ('adds', 2, 2, 1, 1, 5), ('adds', 2, 2, 3, 1, 5), ('adds', 2, 2, 8, 1, 5)]
     else:
         confs = [('adds', 2, 1, 1, 1, 0), ('adds', 2, 2, 3, 1, 0), ('mixed', 3, 2, 3, 2, 0), ('adds', 3, 3, 8, 3, 0), ('mixed', 2, 1, 1, 1, 0),
                  ('fresh', 2, 2, 3, 2, 0), ('adds', 2, 2, 1, 2, 5), ('mixed', 3, 3, 128, 3, 0), ('adds', 2, 1, 3, 1, 0), ('adds', 2, 2, 8, 1, 5), ('adds', 2, 2, 3, 2, 5),
                  ('adds', 3, 1, 8, 1, 6), ('adds', 2, 1, 3, 1, 6),
-                 ('adds3', 3, 1, 3, 1, 0), ('adds3', 4, 2, 1, 2, 0), ('adds3', 3, 2, 8, 1, 0)]
+                 ('adds3', 3, 1, 3, 1, 0), ('adds3', 4, 2, 1, 2, 0), ('adds3', 3, 2, 8, 1, 0),
+                 ('wipe', 2, 1, 3, 2, 0), ('wipe', 3, 2, 1, 1, 0), ('wipe', 3, 1, 8, 3, 4), ('wipe', 4, 3, 3, 1, 0)]
     tot = {}
     conf_sum = []
     traces_ok = 0
@@ -689,6 +859,9 @@ def main(tier, replay=None):
         traces_ok += K.trace_check(None)
         pts = K.points(autosave_window=bool(quick and autosave_at))
         pmap(K.kill_case, pts)
+        if name in ('wipe', 'mixed'):
+            # partial runs: a content save after every number of stripes
+            pmap(K.partial_case, list(range(1, nd * 0 + 11)))
         for k, v in K.stats.items():
             tot[k] = tot.get(k, 0) + v
         conf_sum.append(dict(K.desc, calls=K.ncalls, kill_points=len(pts)))
@@ -709,11 +882,11 @@ def main(tier, replay=None):
     aw = autosave_witness(chk, binary, shim, slow)
     # ---- (a) graceful stops
     sstats = {'signals': 0, 'stopped_early': 0, 'stripes_checked': 0, 'multi_recoveries': 0}
-    sconfs = [('adds', 2, 2, 1), ('adds', 2, 2, 3)] if quick else [('adds', 2, 2, 1), ('adds', 2, 2, 3), ('mixed', 3, 2, 1), ('adds', 3, 3, 8), ('fresh', 2, 1, 1), ('mixed', 2, 1, 3)]
+    sconfs = [('adds', 2, 2, 1), ('adds', 2, 2, 3), ('wipe', 2, 1, 1)] if quick else [('wipe', 2, 1, 1), ('wipe', 3, 2, 3), ('adds', 2, 2, 1), ('adds', 2, 2, 3), ('mixed', 3, 2, 1), ('adds', 3, 3, 8), ('fresh', 2, 1, 1), ('mixed', 2, 1, 3)]
     scases = []
     for (name, nd, np_, cache) in sconfs:
         scn = Scn(binary, shim, name, nd, np_, ncontent=2)
-        nw = 12 if name == 'mixed' else (6 if name == 'adds' else 8)
+        nw = 12 if name == 'mixed' else (6 if name == 'adds' else (10 if name == 'wipe' else 8))
         for k in range(1, nw + 1):
             for sig in ((signal.SIGINT, signal.SIGTERM) if (k % 2 or not quick) else (signal.SIGINT,)):
                 scases.append((scn, cache, k, sig))
@@ -732,11 +905,21 @@ def main(tier, replay=None):
         for k, v in F.stats.items():
             fstats[k] = fstats.get(k, 0) + v
         fconf.append({'np': np_, 'calls': len(F.calls), 'kill_points': len(pts)})
+    # ---- a second fix over .unrecoverable leftovers, stopped gracefully (partial runs, signals)
+    lstats = {}
+    try:
+        FL = FixLeftovers(chk, binary, shim, slow)
+        parts = [(0, n) for n in range(1, FL.blockmax + 1)] + [(s, n) for s in (1, 2, 3, 5) for n in (1, 2, 4)]
+        pmap(FL.partial_case, parts)
+        pmap(FL.signal_case, [(k, sg) for k in range(1, 7 if quick else 12) for sg in (signal.SIGINT, signal.SIGTERM)], workers=8)
+        lstats = FL.stats
+    except Exception as e:
+        chk.violation('setup', 'fix leftovers scenario cannot be prepared: %s' % e, {}, no_input=True)
     probe = unrecoverable_rerun_probe(binary, shim)
-    n_eval = tot.get('kills', 0) + sstats['signals'] + fstats.get('kills', 0) + rstats.get('histories', 0)
+    n_eval = tot.get('kills', 0) + sstats['signals'] + fstats.get('kills', 0) + rstats.get('histories', 0) + lstats.get('partial_runs', 0) + lstats.get('signals', 0)
     chk.cov.update({'evaluations': n_eval, 'distinct_nontrivial': n_eval,
                     'rule': 'EVERY numbered state-changing call k of a reference sync (and of a reference fix) x {before, after, short for write/pwrite}: one fresh deterministic array per point, killed there; SIGINT/SIGTERM at every parity write of slowed syncs; non-trivial = runs really interrupted',
-                    'sync_kill_configurations': conf_sum, 'sync_kill': tot, 'graceful_stop': sstats, 'fix_kill_configurations': fconf, 'fix_kill': fstats, 'delete_kill_identical_readd': rstats,
+                    'sync_kill_configurations': conf_sum, 'sync_kill': tot, 'graceful_stop': sstats, 'fix_kill_configurations': fconf, 'fix_kill': fstats, 'delete_kill_identical_readd': rstats, 'second_fix_over_unrecoverable_leftovers': lstats,
                     'torn_write_np1_unrecoverable': tot.get('torn_write_np1_unrecoverable', 0), 'autosave_race': aw,
                     'fix_rerun_after_unrecoverable_result (measured, not judged)': probe,
                     'traces_validated_against_impl': traces_ok})
